@@ -16,7 +16,7 @@ def exemptions():
 
 def corpus_ledgers(gbp_only=True):
     out = {}
-    pats = ["/repo/tests/inputs/*.cgt", os.path.join(build.ROOT, "corpus", "*.cgt")]
+    pats = [os.path.join(build.REPO, "tests/inputs/*.cgt"), os.path.join(build.ROOT, "corpus", "*.cgt")]
     for pat in pats:
         for p in sorted(glob.glob(pat)):
             try: ls = ledger.parse_simple(open(p).read())
